@@ -1,0 +1,7 @@
+//go:build verif
+
+// Contracts shared by the header-sync routers, read by /verif/gocv.
+package common
+
+// trust-root marker of a side chain: GENESIS_HEADER ++ 8-byte chain id
+//@ spec genKey(id uint64) KeyT = K2(utils.HeaderSyncContractAddress, "genesisHeader", u64le(id))
